@@ -252,10 +252,11 @@ class Kernel:
     def emit(self, name):
         body = self.block(self.fn.body, [])
         params = ["(R : Ops)"] if not self.real else []
+        cT = "C"
         for a in self.arrays:
             params.append("(%s : list Z -> R)" % a)
         for a in self.coord_arrays:
-            params.append("(%s : list Z -> cT)" % a)
+            params.append("(%s : list Z -> C)" % a)
         shapes = sorted(set([self.out] + self.arrays + self.coord_arrays))
         params.append("(%s : list Z)" % " ".join(s + "_shape" for s in shapes))
         if self.int_params:
@@ -322,3 +323,110 @@ def translate_block(repo):
 
 if __name__ == "__main__":
     sys.stdout.write(translate_block(sys.argv[1] if len(sys.argv) > 1 else "/repo"))
+
+
+# ---------------------------------------------------------------------------------------------
+# scalar kernel functions (if / elif / return chains over coordinate-typed values)
+class ScalarFn:
+    def __init__(self, fn):
+        self.fn = fn
+        self.args = [a.arg for a in fn.args.args]
+
+    def expr(self, node):
+        if isinstance(node, ast.Constant) and isinstance(node.value, (int, float)) and not isinstance(node.value, bool):
+            if isinstance(node.value, int):
+                return "(cofZ (%d))" % node.value
+            raise TranslationError("float literal %r in scalar kernel" % node.value)
+        if isinstance(node, ast.Name) and node.id in self.args:
+            return mangle(node.id)
+        if isinstance(node, ast.Call) and call_name(node) == "abs" and len(node.args) == 1:
+            return "(cabs %s)" % self.expr(node.args[0])
+        if isinstance(node, ast.BinOp):
+            if isinstance(node.op, ast.Pow):
+                if isinstance(node.right, ast.Constant) and node.right.value == 2:
+                    e = self.expr(node.left)
+                    return "(cmul %s %s)" % (e, e)
+                raise TranslationError("power other than 2")
+            ops = {ast.Add: "cadd", ast.Sub: "csub", ast.Mult: "cmul", ast.Div: "cdiv"}
+            if type(node.op) not in ops:
+                raise TranslationError("scalar operator %s" % type(node.op).__name__)
+            return "(%s %s %s)" % (ops[type(node.op)], self.expr(node.left), self.expr(node.right))
+        raise TranslationError("scalar expression " + ast.dump(node))
+
+    def cond(self, node):
+        if isinstance(node, ast.Compare) and len(node.ops) == 1:
+            l, r = self.expr(node.left), self.expr(node.comparators[0])
+            op = node.ops[0]
+            if isinstance(op, ast.Gt):
+                return "(cltb %s %s)" % (r, l)
+            if isinstance(op, ast.Lt):
+                return "(cltb %s %s)" % (l, r)
+            if isinstance(op, ast.Eq):
+                return "(ceqb %s %s)" % (l, r)
+        raise TranslationError("scalar condition " + ast.dump(node))
+
+    def block(self, stmts):
+        """statements -> expression; falling off the end yields 0 (python would return None)"""
+        if not stmts:
+            return "(cofZ 0)"
+        s, rest = stmts[0], stmts[1:]
+        if isinstance(s, ast.Expr) and isinstance(s.value, ast.Constant) and isinstance(s.value.value, str):
+            return self.block(rest)
+        if isinstance(s, ast.Return):
+            return self.expr(s.value)
+        if isinstance(s, ast.If):
+            then = self.block(s.body)
+            # `if c: return a` followed by more statements == if c then a else <rest>
+            els = self.block(s.orelse) if s.orelse else self.block(rest)
+            if s.orelse and rest:
+                raise TranslationError("statements after if/else")
+            return "(if %s then %s else %s)" % (self.cond(s.test), then, els)
+        raise TranslationError("scalar statement " + ast.dump(s)[:120])
+
+    def emit(self, name):
+        return "Definition %s (%s : C) : C :=\n  %s.\n" % (name, " ".join(mangle(a) for a in self.args), self.block(self.fn.body))
+
+
+INTERP_HEADER = """(* %s — GENERATED by tools/translate_loops.py from %s (sha256 %s). Do not edit. *)
+From Coq Require Import ZArith List Bool.
+From SV Require Import lib.Scalar lib.BigSum lib.LoopIR lib.Coord.
+Import ListNotations.
+Local Open Scope Z_scope.
+
+Definition ishape_at (s : list Z) (k : Z) : Z :=
+  nth (Z.to_nat (if k <? 0 then Z.of_nat (length s) + k else k)) s 0.
+Notation shape_at := ishape_at.
+
+Section Gen.
+  Variable R : Ops.
+  Variable C : COps.
+  Variable kern : C -> C -> C.     (* the interpolation kernel K(t, param) *)
+  Variable wt : C -> R.            (* embedding of a real weight into the data scalars *)
+
+"""
+
+
+def translate_interp(repo):
+    path = repo + "/sigpy/interp.py"
+    src = open(path).read()
+    sha = hashlib.sha256(src.encode()).hexdigest()
+    tree = ast.parse(src)
+    fns = find_functions(tree)
+    out = [INTERP_HEADER % ("Gen_interp.v", "sigpy/interp.py", sha)]
+    if "_spline_kernel" not in fns:
+        raise TranslationError("missing _spline_kernel")
+    out.append(ScalarFn(fns["_spline_kernel"]).emit("spline_kernel"))
+    for d in (1, 2, 3):
+        for base in ("_interpolate", "_gridding"):
+            name = "%s%d" % (base, d)
+            if name not in fns:
+                raise TranslationError("missing kernel " + name)
+            fn = fns[name]
+            args = [a.arg for a in fn.args.args]
+            if args != ["output", "input", "coord", "width", "param"]:
+                raise TranslationError("%s: unexpected signature %s" % (name, args))
+            k = Kernel(fn, "output", ["input"], [], real=True, coord_arrays=["coord", "width", "param"])
+            out.append(k.emit("k" + name))
+    out.append("End Gen.\n")
+    # which functions _get_interpolate/_get_gridding select for each kernel name, and the KERNELS list
+    return "\n".join(out)
